@@ -112,7 +112,7 @@ func checkC08(c *fw.Ctx) {
 	}
 	// family: functions with two PowerLevelContent parameters reachable from the handler + column functions
 	fam := map[string]*ssa.Function{}
-	reach := fw.ReachableFuncs(c.P.VTA(), []*ssa.Function{handler}, func(f *ssa.Function) bool { return c.P.IsRepoFunc(f) })
+	reach := fw.ReachableFuncs(c.Graph(), []*ssa.Function{handler}, func(f *ssa.Function) bool { return c.P.IsRepoFunc(f) })
 	for f := range reach {
 		if plcParams(f) >= 2 {
 			fam[fw.FuncName(f)] = f
